@@ -326,3 +326,180 @@ def coq_obs(o):
         return "FOErr"
     feats = C.clist(o["feats"], lambda sf: f"({coq_stype(sf[0])}, {coq_featobs(sf[1])})")
     return f"(FOFrame {o['len']}%nat {feats} {coq_names(o['names'])} {coq_y(o['y'])})"
+
+
+# ------------------------------------------------- reference evaluator (C08)
+# Plain nested lists only: a reference frame is the observation dict of read_frame
+# ({"len", "feats": [[stype, {"kind", "inner", "comps": [[key, nrows, ncols, cells]]}]], "names", "y"}).
+def _feat_shape_from_desc(f):
+    if f["kind"] == "dict":
+        return [[k, len(f["comps"][k]), len(f["comps"][k][0]) if f["comps"][k] else f.get("ncols", len(f["names"])),
+                 f["comps"][k]] for k in f["keys"]]
+    cells = f["cells"]
+    return [["", len(cells), len(cells[0]) if cells else f.get("ncols", len(f["names"])), cells]]
+
+
+def ref_build(fr):
+    """What constructing the described frame must give: the data as given, or RefErr when the parts disagree on the
+    number of rows or columns (the property's validate clause)."""
+    feats, names = [], []
+    for f in fr["feats"]:
+        if f.get("ndim1"):
+            raise R.RefErr("feature tensor with fewer than 2 dimensions")
+        feats.append([f["stype"], {"kind": f["kind"], "inner": f.get("inner", 0), "comps": _feat_shape_from_desc(f)}])
+    names = [[s, list(nm)] for s, nm in fr.get("names_override", [(f["stype"], f["names"]) for f in fr["feats"]])]
+    if sorted(s for s, _ in feats) != sorted(s for s, _ in names):
+        raise R.RefErr("feat_dict and col_names_dict have different stypes")
+    if fr["num_rows"] is not None:
+        n = fr["num_rows"]
+    elif feats:
+        n = feats[0][1]["comps"][0][1]
+    else:
+        n = 0
+    nd = dict((s, nm) for s, nm in names)
+    for s, f in feats:
+        for k, nr, ncol, m in f["comps"]:
+            if ncol != len(nd[s]):
+                raise R.RefErr(f"{s}: {ncol} columns of data for {len(nd[s])} column names")
+            if nr != n:
+                raise R.RefErr(f"{s}: {nr} rows, frame has {n}")
+        if len(nd[s]) == 0:
+            raise R.RefErr(f"{s}: no columns")
+    y = None if fr["y"] is None else list(fr["y"])
+    if y is not None and len(y) != n:
+        raise R.RefErr(f"y has {len(y)} rows, frame has {n}")
+    return {"len": n, "feats": feats, "names": names, "y": y}
+
+
+def _same_struct(fa, fb, axis):
+    if fa["kind"] != fb["kind"]:
+        raise R.RefErr("storage kinds differ")
+    if fa["inner"] != fb["inner"]:
+        raise R.RefErr("trailing shapes differ")
+    ka, kb = [c[0] for c in fa["comps"]], [c[0] for c in fb["comps"]]
+    if sorted(ka) != sorted(kb):
+        raise R.RefErr("dict keys differ")
+
+
+def ref_cat(parts, dim):
+    """The property's reading of torch_frame.cat: rows of the parts in order / union of the columns with names and
+    data paired; RefErr for mismatched column sets, duplicated names, conflicting targets, an empty list."""
+    if len(parts) == 0:
+        raise R.RefErr("empty list")
+    if dim == 0:
+        n0 = dict((s, nm) for s, nm in parts[0]["names"])
+        for p in parts[1:]:
+            if dict((s, nm) for s, nm in p["names"]) != n0:
+                raise R.RefErr("column sets differ")
+        if any((p["y"] is None) != (parts[0]["y"] is None) for p in parts):
+            raise R.RefErr("some parts have a target, some do not")
+        feats = []
+        for s, f0 in parts[0]["feats"]:
+            comps = []
+            for key, _, ncol, _ in f0["comps"]:
+                rows = []
+                for p in parts:
+                    fp = dict(p["feats"])[s]
+                    _same_struct(f0, fp, 0)
+                    cp = dict((c[0], c) for c in fp["comps"])[key]
+                    if cp[2] != ncol:
+                        raise R.RefErr("column counts differ")
+                    if f0["kind"] == "met" and cp[3] and f0["comps"][0][3] and \
+                            [len(c) for c in cp[3][0]] != [len(c) for c in f0["comps"][0][3][0]]:
+                        raise R.RefErr("embedding widths differ")
+                    rows += cp[3]
+                comps.append([key, len(rows), ncol, rows])
+            feats.append([s, dict(f0, comps=comps)])
+        y = None if parts[0]["y"] is None else [v for p in parts for v in p["y"]]
+        return {"len": sum(p["len"] for p in parts), "feats": feats, "names": parts[0]["names"], "y": y}
+    if dim != 1:
+        raise R.RefErr("unsupported dim")
+    ys = [p["y"] for p in parts if p["y"] is not None]
+    if len(ys) > 1:
+        raise R.RefErr("more than one part has a target")
+    n = parts[0]["len"]
+    if any(p["len"] != n for p in parts):
+        raise R.RefErr("row counts differ")
+    order, names, fd = [], {}, {}
+    for p in parts:
+        pf = dict(p["feats"])
+        for s, nm in p["names"]:
+            if s not in names:
+                order.append(s)
+                names[s] = []
+                fd[s] = []
+            names[s] += nm
+            fd[s].append(pf[s])
+    allnames = [x for s in order for x in names[s]]
+    if len(set(allnames)) != len(allnames):
+        raise R.RefErr("duplicated column names")
+    feats = []
+    for s in order:
+        f0 = fd[s][0]
+        comps = []
+        for key, _, _, _ in f0["comps"]:
+            rows = [[] for _ in range(n)]
+            ncol = 0
+            for fp in fd[s]:
+                _same_struct(f0, fp, 1)
+                cp = dict((c[0], c) for c in fp["comps"])[key]
+                ncol += cp[2]
+                for i in range(n):
+                    rows[i] = rows[i] + cp[3][i]
+            comps.append([key, n, ncol, rows])
+        feats.append([s, dict(f0, comps=comps)])
+    return {"len": n, "feats": feats, "names": [[s, names[s]] for s in order], "y": ys[0] if ys else None}
+
+
+def ref_ev(e):
+    op = e["op"]
+    if op == "build":
+        return ref_build(e["frame"])
+    if op == "sel":
+        return ref_select(ref_ev(e["of"]), e["idx"])
+    if op == "cat":
+        return ref_cat([ref_ev(p) for p in e["parts"]], e["dim"])
+    raise ValueError(op)
+
+
+def ref_equal(a, b):
+    """The property's equality: same columns, same target, same values with missing == missing on features.
+    Returns (bool, reason) or (None, reason) where the property is silent (a target with missing values)."""
+    if a["len"] != b["len"]:
+        return False, "different numbers of rows"
+    if (a["y"] is None) != (b["y"] is None):
+        return False, "one frame has a target, the other has none"
+    if a["y"] is not None:
+        if any(v is None for v in a["y"] + b["y"]):
+            if [v for v in a["y"]] != [v for v in b["y"]]:
+                return False, "targets differ"
+            return None, "target with missing values"
+        if a["y"] != b["y"]:
+            return False, "targets differ"
+    if dict((s, n) for s, n in a["names"]) != dict((s, n) for s, n in b["names"]):
+        return False, "column names differ"
+    fa, fb = dict(a["feats"]), dict(b["feats"])
+    if sorted(fa) != sorted(fb):
+        return False, "stypes differ"
+    for s in fa:
+        x, z = fa[s], fb[s]
+        if x["kind"] != z["kind"] or x["inner"] != z["inner"]:
+            return False, f"{s}: storage differs"
+        cx, cz_ = dict((c[0], c) for c in x["comps"]), dict((c[0], c) for c in z["comps"])
+        if sorted(cx) != sorted(cz_):
+            return False, f"{s}: dict keys differ"
+        for k in cx:
+            if cx[k][1:3] != cz_[k][1:3] or cx[k][3] != cz_[k][3]:
+                return False, f"{s}{'/' + k if k else ''}: values differ"
+    return True, "equal"
+
+
+def ref_col(o, name):
+    """the column called name: (stype, feature observation with that single column), or (None, None)"""
+    hits = [(s, names.index(name)) for s, names in o["names"] if name in names]
+    if not hits:
+        return None, None
+    s, j = hits[-1]
+    f = dict(o["feats"])[s]
+    comps = [[k, n, 1, [[row[j]] for row in m]] for k, n, c, m in f["comps"]]
+    return s, dict(f, comps=comps)
